@@ -8,6 +8,8 @@ import (
 	"strings"
 
 	"tags.cncf.io/container-device-interface/pkg/cdi"
+	"tags.cncf.io/container-device-interface/pkg/parser"
+	specs "tags.cncf.io/container-device-interface/specs-go"
 )
 
 // validateStream — C05: documents (well-formed ones over the optional fields, and
@@ -632,6 +634,7 @@ func (validateStream) Execute(c Case) {
 			if err != nil || raw == nil {
 				return
 			}
+			obs["aux"] = validateAux(raw, obs["json"] == "accepted")
 			dw := filepath.Join(validateRoot, "w")
 			cache, _ := cdi.NewCache(cdi.WithSpecDirs(dw), cdi.WithAutoRefresh(false))
 			if err := cache.WriteSpec(raw, "out.json"); err != nil {
@@ -642,3 +645,79 @@ func (validateStream) Execute(c Case) {
 		}()
 	}
 }
+
+
+// validateAux: the exported component validators are the parts validation is made of. For every edit block
+// of the typed Spec, ContainerEdits.Validate must accept iff every part is accepted by its own validator
+// (ValidateEnv, DeviceNode/Hook/Mount/IntelRdt.Validate, nil entries rejected); the deprecated ValidateIntelRdt
+// must agree with IntelRdt.Validate; a Spec admitted as a whole has only admissible parts; the wrappers accept
+// a nil receiver / nil block.
+func validateAux(raw *specs.Spec, admitted bool) (aux []any) {
+	aux = []any{}
+	defer func() {
+		if r := recover(); r != nil {
+			aux = append(aux, fmt.Sprintf("a component validator panicked: %v", r))
+		}
+	}()
+	bad := func(f string, a ...any) { aux = append(aux, fmt.Sprintf(f, a...)) }
+	block := func(where string, e *specs.ContainerEdits) {
+		parts := cdi.ValidateEnv(e.Env) == nil
+		for _, d := range e.DeviceNodes {
+			if d == nil || (&cdi.DeviceNode{DeviceNode: d}).Validate() != nil {
+				parts = false
+			}
+		}
+		for _, h := range e.Hooks {
+			if h == nil || (&cdi.Hook{Hook: h}).Validate() != nil {
+				parts = false
+			}
+			if h != nil && (&cdi.Hook{Hook: h}).Validate() == nil && cdi.ValidateEnv(h.Env) != nil {
+				bad("%s: hook accepted with an env that ValidateEnv rejects", where)
+			}
+		}
+		for _, m := range e.Mounts {
+			if m == nil || (&cdi.Mount{Mount: m}).Validate() != nil {
+				parts = false
+			}
+		}
+		if e.IntelRdt != nil {
+			a, b := (&cdi.IntelRdt{IntelRdt: e.IntelRdt}).Validate() == nil, cdi.ValidateIntelRdt(e.IntelRdt) == nil
+			if a != b {
+				bad("%s: ValidateIntelRdt accepts=%v, IntelRdt.Validate accepts=%v", where, b, a)
+			}
+			if !a {
+				parts = false
+			}
+		}
+		whole := (&cdi.ContainerEdits{ContainerEdits: e}).Validate() == nil
+		if whole != parts {
+			bad("%s: ContainerEdits.Validate accepts=%v but its parts accept=%v", where, whole, parts)
+		}
+		if admitted && !whole {
+			bad("%s: the Spec was admitted but ContainerEdits.Validate rejects this block", where)
+		}
+	}
+	block("spec", &raw.ContainerEdits)
+	for i := range raw.Devices {
+		block(fmt.Sprintf("device %d", i), &raw.Devices[i].ContainerEdits)
+	}
+	if (*cdi.ContainerEdits)(nil).Validate() != nil || (&cdi.ContainerEdits{}).Validate() != nil {
+		bad("ContainerEdits.Validate rejects nil edits")
+	}
+	if admitted {
+		if err := specs.ValidateVersion(raw); err != nil {
+			bad("the Spec was admitted but specs.ValidateVersion rejects it: %v", err)
+		}
+		if err := parser.ValidateVendorName(vendorOf(raw.Kind)); err != nil {
+			bad("the Spec was admitted but its vendor is invalid: %v", err)
+		}
+		for i := range raw.Devices {
+			if err := parser.ValidateDeviceName(raw.Devices[i].Name); err != nil {
+				bad("the Spec was admitted but device %d has an invalid name: %v", i, err)
+			}
+		}
+	}
+	return aux
+}
+
+func vendorOf(kind string) string { v, _ := parser.ParseQualifier(kind); return v }
